@@ -21,7 +21,7 @@ ASSUMPTIONS = ["every command of a history looks at the same trash directories (
 FMT = '%Y-%m-%dT%H:%M:%S'
 
 
-RULE += ' Since round 19: trash-empty steps that read the wall clock under a time zone away from Greenwich, and steps that ask first (-i) with a yes or a no.'
+RULE += ' Since round 10: trash-empty steps that read the wall clock under a time zone away from Greenwich, and steps that ask first (-i) with a yes or a no.'
 RULE += ' Since round 8: trash-rm steps whose payload removals are all refused (nothing purged, everything still listed); non-sticky .Trash modes include 0700/0750.'
 
 
